@@ -137,6 +137,9 @@ def _subst_type(types, idx, name, conc, memo, depth=0):
     return memo[idx]
 
 
+_IMPLS = {}
+
+
 def _monomorphise(types, call, callee):
     """A generic helper with one type parameter called with one type argument: give the copy of its
     body the concrete types of this call site (owner types of Box::into_raw etc. are read from them)."""
@@ -159,6 +162,11 @@ def _monomorphise(types, call, callee):
             f["substs"] = [_subst_type(types, s, name, conc, memo) if isinstance(s, int) else s for s in f.get("substs", [])]
             if f.get("self_ty"):
                 f["self_ty"] = _re.sub(r"\b%s\b" % _re.escape(name), types[conc]["s"], f["self_ty"])
+            # a trait method called on the type parameter is now a call of the concrete type's impl
+            if f.get("trait") and not f.get("trait_impl") and f.get("local") and not f.get("res"):
+                impl = _IMPLS.get((f["trait"], f["name"], f.get("self_ty")))
+                if impl is not None:
+                    f["path"], f["adt"], f["trait_impl"] = impl["path"], impl.get("adt"), True
         for st in b["st"]:
             if st["k"] == "A" and st["r"].get("k") == "cast" and isinstance(st["r"].get("ty"), int):
                 st["r"] = dict(st["r"], ty=_subst_type(types, st["r"]["ty"], name, conc, memo))
@@ -339,6 +347,11 @@ def apply(d):
         summary["note"] = "no known_fns.json: inlining disabled"
         return summary
     summary["renamed_back"] = undo_renames(d, known)
+    _IMPLS.clear()
+    for f in d["fns"]:
+        if f.get("trait") and f.get("self_ty") and f["kind"] == "AssocFn" and f.get("local", True):
+            key = (f["trait"], f["name"], f["self_ty"])
+            _IMPLS[key] = f if key not in _IMPLS else None
     byp = {}
     for f in d["fns"]:
         byp.setdefault(f["path"], []).append(f)
